@@ -68,6 +68,29 @@ def gen_depfile(rng):
     return ('depfile', [rng.choice(DF_NODES)] + rules)
 
 
+PC_NAMES = ['zlib', 'abar', 'Mid', 'glib-2.0', 'lib10', 'lib9']
+PC_VREQS = ['>=1.0', '<3', '!=2.1', '==2', '=2.0', '>1', '<=9', '1.5', '>= 1.0']
+PC_LIBS = ['-lz', '-la', '-L/opt/z', '-L/opt/a', '-pthread', '-framework', 'CoreAudio', 'CoreMedia', '-Wl,-z,now', 'zlib', '-lz']
+
+
+def gen_pcreqs(rng):
+    pub = [rng.choice(PC_NAMES) for _ in range(rng.randint(0, 4))]
+    priv = [rng.choice(PC_NAMES) for _ in range(rng.randint(0, 3))]
+    vr = []
+    for _ in range(rng.randint(0, 5)):
+        vs = rng.sample(PC_VREQS, rng.randint(0, 4))
+        n = rng.choice(PC_NAMES)
+        vr.append(n + SEP1 + J(vs) if vs else n)
+    return ('pcreqs', [J(pub), J(priv)] + vr)
+
+
+def gen_pcdedup(rng):
+    pick = lambda pool, k: [rng.choice(pool) for _ in range(rng.randint(0, k))]
+    return ('pcdedup', [J(rng.sample(PC_NAMES + PC_LIBS[:4], rng.randint(0, 3))), J(pick(PC_NAMES, 5)), J(pick(PC_LIBS, 7)),
+                        J(pick(PC_NAMES, 4)), J(pick(PC_LIBS, 6)), J(pick(['-DZ', '-DA', '-I/z', '-pthread'], 5)),
+                        J(pick(['-DZ', '-DP', '-I/z'], 4))])
+
+
 def gen_base(rng, table):
     order = gen_set(rng, rng.randint(0, 7), table)
     pre = gen_set(rng, rng.choice([0, 0, 1, 3]), table)
@@ -132,6 +155,9 @@ def inprocess_cases(ctx, table):
         ('base', [J(table), '', J(['b_pch', 'b_lto', 'b_ndebug', 'b_asneeded']), '']),
         ('base', [J(table), 'sub', J(['b_staticpic', 'b_pie', 'b_colorout']), J(['b_pie'])]),
         ('depfile', ['out', 'out' + SEP1 + J(['b', 'a']), 'a' + SEP1 + J(['z', 'c']), 'b' + SEP1 + J(['c', 'out']), 'c' + SEP1 + 'c', 'q' + SEP1 + 'r']),
+        ('pcreqs', [J(['zlib', 'abar', 'zlib']), J(['Mid']), 'zlib' + SEP1 + J(['>=1.0', '<3', '!=2.1']), 'Mid' + SEP1 + '1.5', 'zlib' + SEP1 + J(['<3', '==2']), 'abar']),
+        ('pcdedup', [J(['abar']), J(['zlib', 'abar', 'zlib', 'Mid']), J(['-lz', '-framework', 'CoreAudio', '-framework', 'CoreMedia', '-lz', '-pthread', 'zlib']),
+                     J(['Mid', 'lib9', 'zlib']), J(['-pthread', '-lz', '-la', '-framework']), J(['-DZ', '-DZ', '-I/z']), J(['-DZ', '-DP'])]),
         ('depfile', ['missing', 'out' + SEP1 + 'a']), ('depfile', ['out', J(['out', 'o2']) + SEP1 + J(['a', 'a']), 'out' + SEP1 + 'b', 'o2']),
         ('fs', [SEP1.join(['c', 'out.h', 'A']), SEP1.join(['c', 'out.h', 'A']), SEP1.join(['c', 'out.h', 'B'])]),
         ('fs', [SEP1.join(['n', 'b.ninja', 'A']), SEP1.join(['n', 'b.ninja', 'A'])]),
@@ -153,8 +179,10 @@ def inprocess_cases(ctx, table):
             cases.append(gen_oset(rng))
         elif k < 0.65:
             cases.append(gen_envhash(rng))
-        elif k < 0.72:
+        elif k < 0.69:
             cases.append(gen_depfile(rng))
+        elif k < 0.75:
+            cases.append(gen_pcreqs(rng) if rng.random() < 0.5 else gen_pcdedup(rng))
         elif k < 0.8:
             cases.append(gen_base(rng, table))
         else:
@@ -224,6 +252,19 @@ def oracle_groups(ctx, table):
         ks = gen_set(rng, rng.randint(2, 5), ['ZED', 'ALPHA', 'Mid', 'PATH', 'A', 'a'])
         kv = [[k, rng.choice(['1', 'x y', ''])] for k in ks]
         groups.append({'kind': 'envhash', 'orders': [kv] + [rng.sample(kv, len(kv)) for _ in range(3)]})
+    # pkg-config Requires lines: the same version requirements added in shuffled order
+    for _ in range(40 if thorough else 20):
+        c = gen_pcreqs(rng)
+        pub, priv, vr = c[1][0], c[1][1], c[1][2:]
+        def shufv(es):
+            out = []
+            for e in rng.sample(es, len(es)):
+                f = e.split(SEP1)
+                v = f[1].split(SEP2) if len(f) > 1 else []
+                out.append(f[0] + SEP1 + J(rng.sample(v, len(v))) if v else f[0])
+            return out
+        groups.append({'kind': 'pcreqs', 'pub': pub.split(SEP2) if pub else [], 'priv': priv.split(SEP2) if priv else [],
+                       'orders': [vr] + [shufv(vr) for _ in range(3)]})
     # depfiles: same rules, rule order and deps order shuffled
     for _ in range(60 if thorough else 25):
         c = gen_depfile(rng)
@@ -577,7 +618,7 @@ def run(ctx):
     ctx.extra['oracle_replace_cases'] = len(rc)
 
     # ---------------- command-line stream
-    nproj = int(os.environ.get('C06_PROJECTS', '0')) or (600 if thorough else 25)
+    nproj = int(os.environ.get('C06_PROJECTS', '0')) or (600 if thorough else 28)
     projects = G.corpus(rng)
     k = 0
     while len(projects) < nproj:
